@@ -1,6 +1,7 @@
 #!/bin/sh
-# runs, for every stored seeded change, the quick check of the property it breaks (plus extra properties given in meta) against a scratch
-# worktree with the patch applied; prints one line per seeded change. Usage: tools/seed_all.sh [tier]
+# runs, for every stored seeded change, the check of the property it breaks against a scratch worktree with the patch applied; prints
+# one line per seeded change. A change whose own demonstration no longer fails on HEAD + patch is reported as NEUTRALISED (a later fix
+# removed the path it needs).  Usage: tools/seed_all.sh [tier]
 TIER=${1:-quick}
 cd "$(dirname "$0")/.."
 for D in "$(pwd)"/seeded/*/; do
@@ -9,8 +10,10 @@ for D in "$(pwd)"/seeded/*/; do
   T=$(mktemp -d /tmp/mabw_seedall.XXXXXX)
   git -C /repo worktree add -q --detach "$T" HEAD
   if git -C $T apply $D/patch.diff 2>/dev/null || git -C $T apply -3 $D/patch.diff 2>/dev/null; then
+    (cd $T && OMP_NUM_THREADS=1 PYTHONPATH=$T timeout 600 /venv/bin/python $D/demo.py >/dev/null 2>&1); DRC=$?
     OUT=$(MABWISER_REPO=$T VERIF_NO_EVIDENCE=1 ./check $P --tier $TIER 2>&1); RC=$?
-    echo "$ID $P $TIER exit=$RC $(echo "$OUT" | grep -m1 -A1 VIOLATION | tail -1 | cut -c1-160)"
+    NOTE=""; [ $DRC -eq 0 ] && NOTE="NEUTRALISED(demo passes on HEAD+patch) "
+    echo "$ID $P $TIER exit=$RC $NOTE$(echo "$OUT" | grep -m1 -A1 VIOLATION | tail -1 | cut -c1-160)"
   else
     echo "$ID $P PATCH-DOES-NOT-APPLY"
   fi
